@@ -124,6 +124,17 @@ def function(ip: Interp, fn: PyConst, args, kwargs, n):
         if spec is None:
             return ip.as_str(value, n)
         return ip.w.uf('py_format', z3.StringSort(), z3.StringSort(), z3.StringSort())(ip.as_str(value, n), ip.as_str(spec, n))
+    if name == 'unknown_value':
+        # an external function nothing is claimed about (clocks, interpreter limits, memory statistics): some value, no effect
+        ip.w.assumptions.add('sys.getrecursionlimit / sys.setrecursionlimit / time.thread_time / memory_use: return some value, raise nothing, touch nothing the contracts see')
+        return Opaque('any', ip.p.fresh('extern', z3.IntSort()))
+    if name in ('exc_cls', 'exc_id'):
+        (e,) = args
+        return e.cls if name == 'exc_cls' else e.eid
+    if name in ('err_cls', 'err_id'):
+        O = S.UNIONS['Outcome']
+        x = ip.coerce_sort(args[0], O, n)
+        return O.o_err__cls(x) if name == 'err_cls' else O.o_err__eid(x)
     if name == 'display_width':
         # tatsu.util.strtools.unicode_display_len: the sum of a per-character width -- an uninterpreted function of the string
         # that is additive over concatenation (instances recorded where strings are built, see Interp.str_concat)
@@ -226,6 +237,11 @@ def function(ip: Interp, fn: PyConst, args, kwargs, n):
             return z3.Select(obj.f['dvals'], k)
         if not isinstance(attr, str):
             ip.oos('getattr with dynamic name', n)
+        if S.is_val(obj) and default and not attr.startswith('__'):
+            # getattr(value, 'name', default) on a value nothing is known about: present or not, an uninterpreted fact of the value
+            has = ip.w.uf(f'hasv_{attr}', Val, z3.BoolSort())(obj)
+            val = ip.w.uf(f'attrv_{attr}', Val, Val)(obj)
+            return z3.If(has, val, ip.to_val(default[0], n))
         if isinstance(obj, Opaque):
             decl = ip.w.registry.opaque_attrs.get((obj.kind, attr)) or ip.w.registry.opaque_attrs.get(('*', attr))
             if decl is None and default:
@@ -534,6 +550,21 @@ def construct(ip: Interp, name, args, kwargs, n):
     rec = PRec(name, {k: _default_field(ip, s, f'{name}.{k}') for k, s in info['fields'].items()})
     init, where = ip.find_method(name, '__init__')
     if init is None:
+        order = info.get('init_fields')
+        if order is not None:
+            # a dataclass: the generated __init__ stores its arguments into the fields, in declaration order
+            if len(args) > len(order) or set(kwargs) - set(order):
+                ip.oos(f'{name}(...): arguments do not fit the declared fields', n)
+            given = dict(list(zip(order, args)) + list(kwargs.items()))
+            for fname in order:
+                if fname in given:
+                    ip.setattr(rec, fname, given[fname], n)
+                elif fname in info.get('init_defaults', {}):
+                    ip.setattr(rec, fname, info['init_defaults'][fname], n)
+                else:
+                    ip.oos(f'{name}(...): missing argument {fname}', n)
+        elif args or kwargs:
+            ip.oos(f'{name}(...): no __init__ and no declared constructor fields', n)
         return rec
     key = f'{where[0]}:{where[1]}.__init__'
     c = ip.w.registry.get(key)
@@ -638,6 +669,10 @@ def isinstance_(ip: Interp, x, c, n):
         names = [c]
     out = []
     for cc in names:
+        if isinstance(cc, Opaque) and cc.kind == 'ExcClass' and isinstance(x, ExcV):
+            # a class known only as a value (an element of payload.raises()): membership is a function of (class of x, that class)
+            out.append(ip.w.uf('exc_isinstance', z3.IntSort(), z3.IntSort(), z3.BoolSort())(x.cls, cc.ident))
+            continue
         if not isinstance(cc, PyConst):
             ip.oos('isinstance with non-class', n)
         out.append(_isinstance1(ip, x, cc, n))
@@ -679,6 +714,9 @@ def _isinstance1(ip, x, cc: PyConst, n):
         return False
     if isinstance(x, Opaque) and cc.kind == 'class' and x.kind in ip.w.registry.classes.get(name, {}).get('opaque_kinds', ()):
         return True
+    if isinstance(x, Opaque) and cc.kind == 'class' and x.kind in ip.w.registry.classes.get(name, {}).get('maybe_kinds', ()):
+        # objects of this opaque kind may or may not be instances of the class: an uninterpreted fact about the object
+        return ip.w.uf(f'isinst_{name}', z3.IntSort(), z3.BoolSort())(x.ident)
     if isinstance(x, Opaque):
         if cc.kind == 'modelclass' and x.kind == 'Model':
             cls = ip.w.uf('model_class', z3.IntSort(), z3.IntSort())(x.ident)
@@ -952,6 +990,9 @@ def method(ip: Interp, recv, name, t: PyConst, args, kwargs, n):
     if t.kind == 'ufmethod':
         fname, rs = t.name.split(':')
         return ip.w.uf(f'{fname}__Int', z3.IntSort(), S.sort_of(rs))(recv.ident)
+    if t.kind == 'attrcall':
+        kind, attr, ident = t.obj
+        return ip.opaque_value(t.name, f'{kind}.{attr}', ident)
     if t.kind == 'opaquemethod':
         if t.name == 'NOOP':
             ip.w.assumptions.add(f'{recv.kind}.{name}: assumed to modify nothing visible to the parse state and not to raise')
